@@ -1,7 +1,9 @@
 package checks
 
 import (
+	"bytes"
 	"fmt"
+	"strings"
 	"sync"
 	"time"
 
@@ -17,6 +19,7 @@ func init() {
 }
 
 type c13Scenario struct {
+	bigWill      bool   // a will payload of 3 kB
 	cause        string // close | keepalive | second-connect | garbage | node-failure | disconnect
 	nNodes       int
 	host         int
@@ -84,11 +87,14 @@ func c13Run(c *fw.Ctx, idx int, sc c13Scenario) {
 	if emptyWill {
 		willPayload = nil // a zero-length will message is legal; it is recognised by its topic below
 	}
+	if sc.bigWill && !emptyWill {
+		willPayload = append([]byte(tag+"|"), bytes.Repeat([]byte("w"), 3000)...) // larger than any single-packet shortcut
+	}
 	isWill := func(p kit.Pkt) bool {
 		if emptyWill {
 			return p.Topic == sc.willTopic && len(p.Payload) == 0
 		}
-		return string(p.Payload) == tag
+		return string(p.Payload) == tag || strings.HasPrefix(string(p.Payload), tag+"|")
 	}
 	ka := 600
 	if sc.cause == "keepalive" {
@@ -360,7 +366,8 @@ func runC13(c *fw.Ctx) {
 	// zero-length will messages
 	for i, cause := range []string{"close", "garbage", "node-failure"} {
 		t := fmt.Sprintf("w/empty%d/x", i)
-		scen = append(scen, c13Scenario{cause: cause, nNodes: 2 + i%2, host: 0, willQos: i % 2, willTopic: t, filters: []string{t, "w/+/x", "w/#", "w/none"}, emptyPayload: true})
+		scen = append(scen, c13Scenario{cause: cause, nNodes: 2 + i%2, host: 0, willQos: i % 2, willTopic: t, filters: []string{t, "w/+/x", "w/#", "w/none"}, emptyPayload: true, retain: i%2 == 0})
+		scen = append(scen, c13Scenario{cause: cause, nNodes: 2 + i%2, host: 1, willQos: (i + 1) % 3, willTopic: "w/big/x", filters: []string{"w/big/x", "w/+/x", "w/#", "w/none"}, bigWill: true, retain: i%2 == 1})
 	}
 	for i := 0; i < c.Pick(6, 300); i++ {
 		cause := causes[rg.Intn(len(causes))]
